@@ -68,6 +68,18 @@ class PgMgrEnv(PgEnv):
             else: outs.append(('ret', st2, ready(ok(Agg('Vec', [])))))
         return outs
 
+    def p_Error__as_db_error(s, M, st, th, ci, a):
+        # a tokio_postgres::Error either carries the server's ErrorResponse or is a transport-level failure: both are possible
+        outs = []
+        for db in (True, False):
+            st2 = st.clone(); st2.logev('env', 'as_db_error', db)
+            outs.append(('ret', st2, some(Ref(st2.alloc(Agg('DbError', [])))) if db else NONE))
+        return outs
+    def p_Error__code(s, M, st, th, ci, a): return s.ret(st, NONE)
+    def p_Error__is_closed(s, M, st, th, ci, a):
+        return [('ret', st.clone(), True), ('ret', st.clone(), False)]
+    def d_DbError(s, M, st, th, v): return True
+
     def p_JoinHandle__abort(s, M, st, th, ci, a):
         st.logev('client', 'conn_task_abort'); return s.ret(st, UNIT)
 
